@@ -61,11 +61,11 @@ func c09Giant(c *sim.Ctx) *sim.Violation {
 		clause, what string
 		b            []byte
 	}{
-		{"d", "0xff", []byte{0xFF, 0x00}},                       // undefined identifier
-		{"d", "0x00", []byte{0x00, 0x00}},                       // undefined identifier 0
-		{"a", "str", []byte{0x1F, 0x00, 0x05, 'a', 'b'}},        // reason string cut inside its body
-		{"a", "prop-id|value", []byte{0x1F}},                    // lone identifier
-		{"a", "str", []byte{0x26, 0x00, 0x01, 'k', 0x00}},       // user property cut inside the value's length prefix
+		{"d", "0xff", []byte{0xFF, 0x00}},                                           // undefined identifier
+		{"d", "0x00", []byte{0x00, 0x00}},                                           // undefined identifier 0
+		{"a", "str", []byte{0x1F, 0x00, 0x05, 'a', 'b'}},                            // reason string cut inside its body
+		{"a", "prop-id|value", []byte{0x1F}},                                        // lone identifier
+		{"a", "str", []byte{0x26, 0x00, 0x01, 'k', 0x00}},                           // user property cut inside the value's length prefix
 		{"b", "SubscriptionIdentifier", []byte{0x0B, 0x80, 0x80, 0x80, 0x80, 0x01}}, // over-long variable byte integer
 	}
 	if typ == ref.ConnAck {
